@@ -479,3 +479,18 @@ func (c *Client) SetAutoAck(on bool) {
 	c.AutoAck = on
 	c.mu.Unlock()
 }
+
+// LocalAddr returns the local address of the underlying connection.
+func (c *Client) LocalAddr() string { return c.conn.LocalAddr().String() }
+
+// DialRaw opens a bare TCP connection with a small receive buffer that nobody reads from (a stuck consumer).
+func DialRaw(addr string) (net.Conn, error) {
+	c, err := net.DialTimeout("tcp", addr, 5*time.Second)
+	if err != nil {
+		return nil, err
+	}
+	if tc, ok := c.(*net.TCPConn); ok {
+		_ = tc.SetReadBuffer(1024)
+	}
+	return c, nil
+}
